@@ -252,11 +252,11 @@ TREES = {
     "outline": {"name": "Outlines", "tags": ["o"], "desc": [], "bg": None, "items": [
         {"k": "o", "name": "Template <a>", "tags": ["t", "p.<a>"], "desc": ["outline description"], "steps": [
             st("given", "a <a> thing", table=[["h1", "h2"], ["<a>", ""], ["x|y", "<b>"]]),
-            st("when", "doc follows:", doc=["line one <b>", "  indented", "", "last"], quote="'''"),
+            st("when", "doc follows:", doc=["line one <b>", "  indented", "", '"""', "last"], quote="'''"),
             st("then", "done")],
          "examples": [{"name": "Ex one", "tags": ["e1"], "table": [["a", "b"], ["1", "2"], ["", "x y"]]},
                       {"name": "", "tags": [["e2"], ["e3"]], "table": [["b", "a"], ["3", "4"]]}]},
-        {"k": "s", "name": "after outline", "tags": [], "desc": [], "steps": [st("given", "g", doc=["only"]), st("and", "a2", table=[["c"], ["1"], ["2"]])]},
+        {"k": "s", "name": "after outline", "tags": [], "desc": [], "steps": [st("given", "g", doc=["only", "'''", "Scenario: no", "| c |", "@t # x"]), st("and", "a2", table=[["c"], ["1"], ["2"]])]},
     ]},
     "mixed": {"name": "Mixed order", "tags": [], "desc": [], "bg": None, "items": [
         {"k": "s", "name": "plain first", "tags": [], "desc": [], "steps": [st("given", "g1"), st("then", "t1")]},
